@@ -1,0 +1,17 @@
+//go:build verif
+
+package fastpath
+
+// Contract for the path comparison used to sort conflict and problem lists
+// (property C40). Comment-only file: compiled only under the "verif" build
+// tag, contains no code. The "//@" lines are read by govc.
+
+// Less is irreflexive, the synchronization root precedes every other path and
+// nothing precedes the root. (That Less is a strict total order agreeing with
+// depth-first traversal relates several runs of the function and is not
+// stated here.)
+//@ func Less
+//@   ensures[irreflexive] old(first) == old(second) ==> !result
+//@   ensures[rootfirst] old(first) == "" && old(second) != "" ==> result
+//@   ensures[rootfirst] old(second) == "" ==> !result
+//@   modifies
